@@ -419,12 +419,17 @@ RelocAlphabet ==       \* C09: even-sized statements; absolute (#a, @#b, .word a
     I1("movx", A), I1("movi", Bin("-", Dot, A)), I1("movr", Bin("+", Dot, Num(4))),
     W(<<A>>), W(<<B, Bin("-", B, A)>>), W(<<Dot, Bin("+", Bin("-", B, A), Bin("-", B, A))>>), Blkw(Num(2)),
     Lab("a"), Lab("b"), Const("c", Bin("+", A, Num(2))), W(<<Sym("c")>>), Rep(2, << I1("movr", A), W(<<Dot>>) >>), Inc(1), Inc(2),
-    LabX("g"), I1("movr", Sym("x")), I1("br", Sym("x")), Inc(3) }
+    LabX("g"), I1("movr", Sym("x")), I1("br", Sym("x")), Inc(3), Inc(4) }
 RelocCoreAlphabet ==   \* C09: few statements, all programs of 4: includes referring to each other behind / in front of code and labels
-  { I0("nop"), Inc(1), Inc(2), Inc(3), LabX("g"), Lab("a"), I1("movr", A), W(<<A>>), I1("movr", Sym("x")) }
+  { I0("nop"), Inc(1), Inc(2), Inc(3), Inc(4), LabX("g"), Lab("a"), I1("movr", A), W(<<A>>), I1("movr", Sym("x")) }
 RelocIncFiles == << [name |-> "i1", body |-> << I0("nop"), LabX("x"), I0("nop"), I1("movr", Sym("g")), I1("mova", Sym("g")) >>],    \* x: a plain code label at a non-zero offset of its file, never used absolutely here
                     [name |-> "i2", body |-> << I0("nop"), Inc(1), I1("movr", Sym("x")), I1("movi", Sym("x")) >>],
-                    [name |-> "i3", body |-> << I0("nop"), LabX("y"), I1("movr", Sym("x")), I1("br", Sym("x")) >>] >>
+                    [name |-> "i3", body |-> << I0("nop"), LabX("y"), I1("movr", Sym("x")), I1("br", Sym("x")) >>],
+                    \* i4: a file whose FIRST statement is an include (the inner file's base is known only through the outer file's);
+                    \* i5: a table that refers to its own labels absolutely and relatively
+                    [name |-> "i4", body |-> << Inc(5), I0("nop"), LabX("z"), I1("movi", Sym("z")) >>],
+                    [name |-> "i5", body |-> << Lab("t1"), W(<<Sym("t1")>>), Lab("t2"), W(<<Sym("t2"), Bin("-", Sym("t2"), Sym("t1"))>>), I1("movi", Bin("+", Sym("t2"), Num(2))),
+                                                I1("movr", Sym("t2")) >>] >>
 
 OrderAlphabet ==       \* C03: definition chains / diamonds / uses in every operand and directive position
   { Const("a", Bin("+", B, Num(1))), Const("b", Bin("*", Sym("c"), Num(2))), Const("c", Num(5)), Const("c", Bin("-", Sym("l"), Sym("m"))),
